@@ -6,3 +6,4 @@ Part b: units equivariance for kernels obeying the homogeneity laws.
 -/
 import Flowdyn.Props.C13a
 import Flowdyn.Props.C13b
+import Flowdyn.Props.C13c
